@@ -168,11 +168,12 @@ CLAIMED = {
         note=TB + "Mutex behaviour of PubSubManager is not modelled (single command thread); disconnect detection timing is the server's; the TCP layer sends one command at a time.",
         ref="DESIGN.md section 5 C14"),
     "C19": dict(
-        text=("Proof: SCAN soundness, batch bound, cursor progress and an explicit termination bound, completeness under the exact decidable condition the rank cursor supports "
-              "(no element ranked below the cursor leaves the view; additions anywhere) with witnesses that the full statement fails for a rank cursor and holds for a key cursor, "
-              "HSCAN/SSCAN/ZSCAN as the same walk, and the MATCH matcher refined to glob semantics - Lean theorems; every call of full iterations with interleaved adds/deletes is "
-              "compared with the model in-process (59k evaluations) and misses are classified by the rank of the deleted element."),
-        note=TB + "The rank-cursor design gap (a deletion below the cursor) is a recorded known finding; lazy expiry inside scan is C02's.",
+        text=("Proof: SCAN completeness at FULL strength for the tree as it is (slot cursor since 7022e03): every element present during a whole iteration is returned, for any adds and deletes between "
+              "calls, any COUNT, MATCH and TYPE, with no exclusion hypothesis (scan_complete), nothing returned twice (scan_batch_slots), soundness, cursor progress, an explicit termination bound, the batch "
+              "bound COUNT + one equal-slot group, HSCAN/SSCAN/ZSCAN as the same walk, and the MATCH matcher refined to glob semantics; the rank-cursor theorems and the witness that the pinned tree lost "
+              "elements are kept for the old configuration - 39 Lean theorems, parametric in the hash; every call of full iterations with interleaved adds/deletes is compared with the model in-process "
+              "(86k evaluations), incl. names with colliding slots and star-overlap glob families."),
+        note=TB + "The cursor scheme is recognised by the translator in all four functions (tree_cursor_scheme_recognised); replies come in hash order; lazy expiry inside scan is C02's.",
         ref="DESIGN.md section 5 C19"),
 }
 
